@@ -240,7 +240,7 @@ func Body(t *rapid.T, level spec.Level, depth int, defs *[]string) string {
 
 // Template draws a template text for a report of the given level. simple=true restricts
 // it to literals and plain field references (the domain of the independent oracle).
-func Template(t *rapid.T, level spec.Level) string {
+func templateCore(t *rapid.T, level spec.Level) string {
 	if rapid.IntRange(0, 4).Draw(t, "simple") == 0 {
 		var b strings.Builder
 		n := rapid.IntRange(0, 8).Draw(t, "nparts")
@@ -267,4 +267,24 @@ func Template(t *rapid.T, level spec.Level) string {
 		return body + pad[:n] + "{{.Version}}"
 	}
 	return body
+}
+
+// edgeTexts: what files and transports put at the two ends of a text — byte order marks,
+// blank lines, CR LF, NUL, invisible characters, a shebang or XML declaration. text/template
+// copies them to the output unchanged, so must the library.
+var edgeTexts = []string{"\ufeff", "\ufeff\ufeff", "\ufffe", " ", "\n", "\r\n", "\n\n", "\t", "\x00", "\u200b", "\u00a0", "\u2028", "#!tpl\n", "<?xml version=\"1.0\"?>\n", "\xef\xbb", "\xff\xfe", "\x1a"}
+
+// Template draws a template text: the core grammar, one time in six with an edge text in
+// front of it, behind it, or both.
+func Template(t *rapid.T, level spec.Level) string {
+	core := templateCore(t, level)
+	switch rapid.IntRange(0, 17).Draw(t, "edges") {
+	case 0:
+		return rapid.SampledFrom(edgeTexts).Draw(t, "lead") + core
+	case 1:
+		return core + rapid.SampledFrom(edgeTexts).Draw(t, "trail")
+	case 2:
+		return rapid.SampledFrom(edgeTexts).Draw(t, "lead") + core + rapid.SampledFrom(edgeTexts).Draw(t, "trail")
+	}
+	return core
 }
